@@ -61,3 +61,4 @@ Proof. exact confirm_table. Qed.
 Print Assumptions confirmation_table.
 Theorem confirmation_non_interactive : forall dflt prefix script, ask_confirm false dflt prefix script = (CBool dflt, 0).
 Proof. exact confirm_non_interactive. Qed.
+Print Assumptions confirmation_non_interactive.
